@@ -67,8 +67,20 @@ Tags == (IF taint THEN {"tainted"} ELSE {})
 Fresh(cands) == { c \in cands : ~\E x \in viol : x[1] = c[1] /\ x[2] = c[2] }
 
 \* ---- clauses: each returns a set of candidate violations <<clause, discriminator, line, otherLine>>
+Blind(e) == "blind" \in DOMAIN e
+\* the placeholder for an object frozen at a blind step (no dump was taken)
+BlindDump == << <<>>, <<>>, <<>>, <<>>, <<>>, <<>>, <<>>, "blind" >>
+\* a copy committed without ever having been read (blind CopySwap + blind Reload): what the state reopened from the copy's roots
+\* shows against what the original shows
+BlindCopy(e) ==
+   IF e.ev = "Reload" /\ Blind(e) /\ "orig" \in DOMAIN e
+   THEN LET d == Diff(e.orig, e.re) \cup { "enum:" \o x : x \in Diff(e.orig, e.raw) } IN
+        (IF d = {} THEN {} ELSE { <<"CopyEqualsOriginal", d \cup {"blind"} \cup Tags, l, 0>> })
+        \cup (IF e.reroots # e.roots THEN { <<"ReopenEqualsLive", {"roots", "blind"} \cup Tags, l, 0>> } ELSE {})
+   ELSE {}
+
 Reopen(e) ==
-   IF e.ev \notin {"Commit", "Reload"} THEN {}
+   IF e.ev \notin {"Commit", "Reload"} \/ Blind(e) THEN {}
    ELSE LET d == Diff(e.live, e.re) \cup { "enum:" \o x : x \in Diff(e.live, e.raw) }
                  \cup (IF e.reroots # e.roots THEN {"roots"} ELSE {}) IN
         IF d = {} THEN {} ELSE { <<"ReopenEqualsLive", d \cup Tags, l, 0>> }
@@ -94,7 +106,7 @@ OldReopen(e) ==
    ELSE {}
 
 CopyEq(e) ==
-   IF e.ev \notin {"Copy", "CopySwap"} THEN {}
+   IF e.ev \notin {"Copy", "CopySwap"} \/ Blind(e) THEN {}
    ELSE LET d == Diff(e.orig, e.copy) IN
         IF d = {} THEN {} ELSE { <<"CopyEqualsOriginal", d \cup Tags, l, 0>> }
 
@@ -112,7 +124,8 @@ Indep(e) ==
 MainTags == mtag \cup (IF taint THEN {"tainted"} ELSE {})
 ObjTags(k) == IF k = 1 THEN MainTags ELSE IF (k - 1) \in DOMAIN ftags THEN ftags[k - 1] ELSE {}
 RootObs(e) ==
-   (IF e.ev \in {"Root", "Commit", "Reload"} /\ "live" \in DOMAIN e THEN { <<e.live, e.roots, MainTags>>, <<e.pre, e.roots, MainTags>> } ELSE {})
+   (IF e.ev = "Reload" /\ Blind(e) THEN { <<e.re, e.roots, MainTags>> } ELSE {})
+   \cup (IF e.ev \in {"Root", "Commit", "Reload"} /\ "live" \in DOMAIN e THEN { <<e.live, e.roots, MainTags>>, <<e.pre, e.roots, MainTags>> } ELSE {})
    \* (the dump taken BEFORE the root computation is content too: what was written is what the getters showed then)
    \cup (IF "endpre" \in DOMAIN e THEN { <<e.endpre[k], e.endroots[k], ObjTags(k)>> : k \in DOMAIN e.endroots } ELSE {})
    \cup (IF "endroots" \in DOMAIN e THEN { <<e.enddumps[k], e.endroots[k], ObjTags(k)>> : k \in DOMAIN e.endroots } ELSE {})
@@ -122,7 +135,7 @@ SameRoots(e) ==
    { <<"SameContentSameRoots", RootDiff(seen[o[1]][1], o[2]) \cup o[3] \cup seen[o[1]][3], l, seen[o[1]][2]>> :
         o \in { p \in Usable(e) : p[1] \in DOMAIN seen /\ seen[p[1]][1] # p[2] } }
 
-ZeroFired == [OldReopens |-> 0, BothSides |-> 0, DiskReopens |-> 0, Reopens |-> 0, CopyEqs |-> 0, Indeps |-> 0, RootObsN |-> 0, RootsCompared |-> 0, Failures |-> 0, Contents |-> 0]
+ZeroFired == [BlindCopies |-> 0, OldReopens |-> 0, BothSides |-> 0, DiskReopens |-> 0, Reopens |-> 0, CopyEqs |-> 0, Indeps |-> 0, RootObsN |-> 0, RootsCompared |-> 0, Failures |-> 0, Contents |-> 0]
 
 Init == /\ l = 1 /\ seen = <<>> /\ frozen = <<>> /\ unc = {} /\ taint = FALSE /\ txopen = FALSE /\ mtag = {} /\ ftags = <<>>
         /\ chist = <<>> /\ clive = <<>> /\ flive = <<>>
@@ -145,17 +158,20 @@ Step ==
       THEN /\ viol' = viol \cup Fresh({ <<"Readable", {e.ev} \cup Tags, l, 0>> })
            /\ fired' = [fired EXCEPT !.Failures = @ + 1]
            /\ UNCHANGED <<seen, frozen, unc, taint, txopen, mtag, ftags, chist, clive, flive>>
-      ELSE LET C == Reopen(e) \cup DiskReopen(e) \cup OldReopen(e) \cup CopyEq(e) \cup Indep(e) \cup SameRoots(e)
+      ELSE LET C == Reopen(e) \cup BlindCopy(e) \cup DiskReopen(e) \cup OldReopen(e) \cup CopyEq(e) \cup Indep(e) \cup SameRoots(e)
                U == Usable(e) IN
            /\ viol' = viol \cup Fresh(C)
            /\ seen' = AddAll(seen, U)
            /\ frozen' = CASE e.ev = "Copy" -> Append(frozen, e.copy)
+                          [] e.ev = "CopySwap" /\ Blind(e) -> Append(frozen, BlindDump)
+                          [] e.ev = "Reload" /\ Blind(e) /\ "orig" \in DOMAIN e /\ Len(frozen) > 0 -> [frozen EXCEPT ![Len(frozen)] = e.orig]
                           [] e.ev = "CopySwap" -> Append(frozen, e.orig)
                           [] e.ev = "AddRecordOther" /\ "fz" \in DOMAIN e /\ Len(frozen) > 0 /\ Len(e.fz) = Len(frozen)
                                -> [frozen EXCEPT ![Len(frozen)] = e.fz[Len(frozen)]]
                           [] OTHER -> frozen
-           /\ clive' = IF e.ev \in {"Commit", "Reload", "Restart"} THEN <<e.live>> ELSE clive
-           /\ chist' = CASE e.ev \in {"Commit", "Reload"} -> Append(chist, e.live)
+           /\ clive' = IF e.ev = "Reload" /\ Blind(e) THEN <<e.re>> ELSE IF e.ev \in {"Commit", "Reload", "Restart"} THEN <<e.live>> ELSE clive
+           /\ chist' = CASE e.ev = "Reload" /\ Blind(e) -> Append(chist, e.re)
+                         [] e.ev \in {"Commit", "Reload"} -> Append(chist, e.live)
                          [] e.ev = "Restart" -> <<e.live>>
                          [] OTHER -> chist
            /\ flive' = IF e.ev = "Flush" THEN clive ELSE flive
@@ -170,8 +186,9 @@ Step ==
            /\ txopen' = CASE e.ev \in {"Finalise", "Root", "Commit", "Reload", "CopySwap", "End", "Restart"} -> FALSE
                            [] e.ev \in {"Copy", "Flush", "GC", "ReloadOld", "AddRecordOther"} -> txopen
                            [] OTHER -> TRUE
-           /\ taint' = (taint \/ (e.ev = "CopySwap" /\ CopyEq(e) # {}) \/ Reopen(e) # {} \/ DiskReopen(e) # {} \/ OldReopen(e) # {})
-           /\ fired' = [fired EXCEPT !.OldReopens = @ + (IF e.ev = "ReloadOld" /\ "re" \in DOMAIN e THEN 1 ELSE 0),
+           /\ taint' = (taint \/ (e.ev = "CopySwap" /\ CopyEq(e) # {}) \/ Reopen(e) # {} \/ BlindCopy(e) # {} \/ DiskReopen(e) # {} \/ OldReopen(e) # {})
+           /\ fired' = [fired EXCEPT !.BlindCopies = @ + (IF e.ev = "Reload" /\ Blind(e) /\ "orig" \in DOMAIN e THEN 1 ELSE 0),
+                                     !.OldReopens = @ + (IF e.ev = "ReloadOld" /\ "re" \in DOMAIN e THEN 1 ELSE 0),
                                      !.BothSides = @ + (IF e.ev = "AddRecordOther" /\ "main" \in DOMAIN e THEN 1 ELSE 0),
                                      !.DiskReopens = @ + (IF (e.ev = "Flush" /\ clive # <<>>) \/ (e.ev = "Restart" /\ flive # <<>>) THEN 1 ELSE 0),
                                      !.Reopens = @ + (IF e.ev \in {"Commit", "Reload"} THEN 1 ELSE 0),
